@@ -150,13 +150,39 @@ def rh_cases(draw):
     cells = [{"x": 12 * i + draw(st.sampled_from([0, 0, 3])), "y": draw(st.sampled_from([0, 0, 8])),
               "h": draw(st.sampled_from(HEADINGS))} for i in range(ncell)]
     def objspec():
+        # "noise": the object is aligned to the field up to a bounded disturbance, written the
+        # way pruning recognises it (a class default `yaw: vf[self.position].yaw + Range(..)`);
+        # with the field headings near +/-pi the disturbed interval crosses the branch cut
+        noise = None
+        if draw(st.integers(0, 2)) == 0:
+            lo = draw(st.sampled_from([-0.6, -0.3, -0.1, 0, 0.05]))
+            noise = [lo, lo + draw(st.sampled_from([0.1, 0.3, 0.6]))]
         return {"rel": draw(st.one_of(st.none(), st.none(), rng_or_const(-0.5, 0.5))),
+                "noise": noise,
                 "vis": draw(st.sampled_from([None, "requireVisible", "visible"])),
                 "size": draw(st.sampled_from([1, 1, 0.5, 3, 6]))}
+    ego_spec, other_spec = objspec(), objspec()
+    cut = None
+    if (ego_spec["noise"] or other_spec["noise"]) and draw(st.integers(0, 3)):
+        # a disturbed heading in a cell whose own heading is next to the branch cut
+        cut = draw(st.integers(0, ncell - 1))
+        h = cells[cut]["h"] = draw(st.sampled_from([-3.1, -3.0, 3.1, 3.0]))
+        for spec in (ego_spec, other_spec):
+            if spec["noise"]:
+                # make the disturbed interval really cross the cut on this cell's side
+                width = spec["noise"][1] - spec["noise"][0]
+                if h < 0 and h + spec["noise"][0] > -math.pi:
+                    spec["noise"] = [-0.3, round(-0.3 + width, 3)]
+                if h > 0 and h + spec["noise"][1] < math.pi:
+                    spec["noise"] = [round(0.3 - width, 3), 0.3]
     reqs = []
     for _ in range(draw(st.integers(1, 2))):
         a = _num(draw, -3, 2)
         form = draw(st.integers(0, len(REQ_FORMS) - 1))
+        if cut is not None and not reqs and draw(st.integers(0, 3)):
+            # two-sided forms: the admitted band can lie wholly beyond the cut
+            form = draw(st.sampled_from([k for k, kind in enumerate(FORM_KIND)
+                                         if kind in ("between", "abs_minus_k", "abs_plus_k")]))
         r = {"form": form, "a": a, "b": a + _num(draw, 0.25, 3), "c": _num(draw, 0, 3),
              "k": _num(draw, -2, 2), "soft": draw(st.sampled_from([None, None, None, 0.5])),
              "deg": draw(st.booleans()),
@@ -164,18 +190,26 @@ def rh_cases(draw):
              # `terminate when` / `record` statement must not influence pruning
              "stmt": draw(st.sampled_from(["require", "require", "require", "terminate",
                                            "record"]))}
-        if draw(st.booleans()):
+        if draw(st.booleans()) or (cut is not None and not reqs):
             # targeted constants: the requirement admits (about) exactly the relative heading
             # d of one ordered pair of cells, so that any slip in the extracted bounds matters
             i = draw(st.integers(0, ncell - 1))
             j = draw(st.integers(0, ncell - 1))
-            d = cells[j]["h"] - cells[i]["h"]
+            mid = lambda spec: sum(spec["noise"]) / 2 if spec["noise"] else 0.0
+            if cut is not None and not reqs:
+                # ... the band lies inside the relative headings the disturbed pair can take
+                if other_spec["noise"]:
+                    j = cut
+                else:
+                    i = cut
+                r["stmt"] = "require"
+            d = (cells[j]["h"] + mid(other_spec)) - (cells[i]["h"] + mid(ego_spec))
             while d > math.pi:
                 d -= math.tau
             while d < -math.pi:
                 d += math.tau
             d = round(d, 3)
-            w = draw(st.sampled_from([0.25, 0.5, 1.0]))
+            w = draw(st.sampled_from([0.25, 0.5, 1.0] if cut is None or reqs else [0.05, 0.1, 0.25]))
             r["deg"] = False
             r["target"] = [i, j]
             kind = FORM_KIND[form]
@@ -202,7 +236,7 @@ def rh_cases(draw):
         reqs.append(r)
     dist = draw(st.one_of(st.none(), st.integers(6, 40)))
     return {"family": "rh", "mode2D": draw(st.booleans()), "cells": cells,
-            "ego": objspec(), "other": objspec(), "reqs": reqs, "dist": dist,
+            "ego": ego_spec, "other": other_spec, "reqs": reqs, "dist": dist,
             "distform": draw(st.integers(0, 2)),
             "visibleDistance": draw(st.sampled_from([8, 15, 30, 60])),
             "seed": draw(st.integers(0, 10**6))}
@@ -218,7 +252,17 @@ def emit_rh(c):
              + ", ".join(f"[r{i}.polygons, {cell['h']}]" for i, cell in enumerate(c["cells"])) + "])")
     L.append("union = " + "r0" + "".join(f".union(r{i})" for i in range(1, len(c["cells"]))))
 
+    for name in ("ego", "other"):
+        nz = c[name].get("noise")
+        if nz:
+            L.append(f"class Noisy_{name}:\n    yaw: vf[self.position].yaw + Range({nz[0]}, {nz[1]})")
+
+    def cls(name):
+        return f"Noisy_{name}" if c[name].get("noise") else "Object"
+
     def facing(o):
+        if o.get("noise"):
+            return "with pitch 0"
         if o["rel"] is None:
             return "facing vf"
         return f"facing ({val_src(o['rel'])}) relative to vf"
@@ -227,7 +271,7 @@ def emit_rh(c):
         sz = o.get("size", 1)
         return f", with width {sz}, with length {sz}" if sz != 1 else ""
 
-    L.append(f"ego = new Object in union, {facing(c['ego'])}, with visibleDistance "
+    L.append(f"ego = new {cls('ego')} in union, {facing(c['ego'])}, with visibleDistance "
              f"{c['visibleDistance']}, with allowCollisions True, with requireVisible False"
              + size(c["ego"]))
     o = c["other"]
@@ -235,7 +279,7 @@ def emit_rh(c):
            None: ", with requireVisible False"}[o["vis"]]
     if o["vis"] == "visible":
         vis += ", with requireVisible False"
-    L.append(f"other = new Object in union, {facing(o)}, with allowCollisions True{vis}"
+    L.append(f"other = new {cls('other')} in union, {facing(o)}, with allowCollisions True{vis}"
              + size(o))
     for r in c["reqs"]:
         def num(v):
@@ -417,7 +461,9 @@ def cell_of(c, i):
         which = "ego" if i == 0 else "other"
         parts = ["rh", which]
         o = c[which]
-        if o["rel"] is not None:
+        if o.get("noise"):
+            parts.append("noise")
+        elif o["rel"] is not None:
             parts.append("reloffset")
         if c["other"]["vis"]:
             parts.append(c["other"]["vis"])
@@ -520,6 +566,8 @@ def judge(c, nscenes=120, tries=400):
 
     out = core.Outcome()
     out.cls("family:" + c.get("family", "contain"))
+    if c.get("family") == "rh" and (c["ego"].get("noise") or c["other"].get("noise")):
+        out.cls("heading-noise")
     src = emit(c)
     scale = 30.0
     tol = 1e-6 * scale
